@@ -405,13 +405,14 @@ def failure_props(f):
     """properties a monitor failure speaks about: by code, plus C07 when a caller was handed a
     success it should not have got in a scenario whose disturbance was a cancellation / deadline"""
     props = list(code_props(f['code']))
-    if f['code'] in (211, 1606, 202) and 'cancel' in f.get('sig', '') and 'C07' not in props:
+    if f['code'] in (211, 1606, 202, 301) and 'cancel' in f.get('sig', '') and 'C07' not in props:
+        # (301: the cancellation of one RPC ended the whole tunnel - C07 says it ends that RPC)
         props.append('C07')
     return props
 
 
 def code_props(code):
-    table = {1302: ['C13', 'C08'], 1307: ['C13', 'C06'], 1313: ['C13', 'C11'], 1315: ['C13', 'C11'], 1103: ['C11', 'C13'],
+    table = {209: ['C02', 'C17'], 1302: ['C13', 'C08'], 1307: ['C13', 'C06'], 1313: ['C13', 'C11'], 1315: ['C13', 'C11'], 1103: ['C11', 'C13'],
              602: ['C06', 'C05'], 603: ['C06', 'C05'], 901: ['C09', 'C15'], 1104: ['C11'], 1105: ['C11'],
              1203: ['C12', 'C14'], 1204: ['C12', 'C14'],
              611: ['C06', 'C09'], 612: ['C06', 'C05'], 631: ['C06', 'C05', 'C13'], 632: ['C06', 'C05'], 633: ['C05', 'C06'],
@@ -801,7 +802,7 @@ class Verdict:
                 rel = ['C15']
             else:
               rel = ['C09', 'C15'] if a['status'].startswith('panic') else \
-                  ((['C03', 'C05', 'C15'] + (['C04'] if a.get('after_tunnel_end') else []) + (['C07'] if 'cancel' in a.get('sig', '') else [])) if a['status'].startswith('hang')
+                  ((['C03', 'C05', 'C15'] + (['C04'] if a.get('after_tunnel_end') else []) + (['C07'] if ('cancel' in a.get('sig', '') or r['family'] in ('stress:mix', 'stress:bounded', 'stress:nested')) else [])) if a['status'].startswith('hang')
                    else (['C14'] + (['C04'] if a.get('after_tunnel_end') else [])))
             if self.pid not in rel:
                 continue
